@@ -7,12 +7,15 @@
 
    Below: C12's [render] instantiated with "the text of the log entry for (class, path) in the run whose ambient is a", and
    [render_independent] proved from exactly the statement of C10_file_indep_real (hypothesis c10_file_indep, to be discharged by
-   `exact (C10_file_indep_real U render Hr cfun m1 m2 h1 h2)` after unfolding [log_of]) PLUS the one lemma C10 does not provide:
+   `exact (C10_file_indep_real U render Hr cfun m1 m2 h1 h2)` after unfolding [log_of]) PLUS
 
-     c10_generated : every run of a configuration class writes an entry for every path of that class
-                     (existence; C10_subset proves it for single_run histories only).
-
-   That lemma is the exact missing bridge; until it exists the C12 content theorems rest on render_independent as a premise. *)
+     c10_generated : existence of the entry (Prop) -- C10 HAS it for the runs C12 uses: GenStateThmSubset.single_run_entry;
+     matches_dec   : decidability of "this entry is the file of (class, path)" -- trivial but not stated in C10 (needs a boolean
+                     equality on LinePPInst.pp);
+   and, outside Coq, the correspondence between C12's opaque class/path ids and C10's (cfg, templates, processors)/type keys,
+   which only the harness fixes.  What is still missing for a hypothesis-free instantiation is therefore: matches_dec, and either
+   totality for pairs that are not targets or a domain-restricted render_independent.  Until then the C12 content theorems rest
+   on render_independent as a named premise. *)
 From Coq Require Import NArith List Bool.
 From Verif Require Import GenState RegenBase Gen_Regen Regen RegenThm.
 Import ListNotations.
@@ -31,16 +34,35 @@ Section BridgeC10.
     e_cfg e1 = e_cfg e2 -> e_tset e1 = e_tset e2 -> e_pps0 e1 = e_pps0 e2 -> e_key e1 = e_key e2 ->
     e_tmpl e1 = e_tmpl e2 /\ e_text e1 = e_text e2.
 
-  (* MISSING in C10 (the bridge): totality of generation *)
-  Hypothesis c10_generated : forall a cl p, { e : entry | In e (log_of a) /\ matches e cl p }.
+  (* totality of generation, as C10 states it: Prop-level existence.  For the runs C12 uses (one nnvg invocation = one process
+     = GenStateThmSubset.single_run cf ts pps ins ord args) this is GenStateThmSubset.single_run_entry, under its premises
+     In (key_of p) ord and resolve_in U ins (key_of p) = Some o, i.e. for the (class, path) pairs that ARE targets of the class.
+     render_independent quantifies over all pairs, so the hypothesis is stated for all of them (for a pair that is not generated
+     the content id is never looked at by any C12 theorem; a domain-restricted render_independent would remove the overshoot). *)
+  Hypothesis c10_generated : forall a cl p, exists e : entry, In e (log_of a) /\ matches e cl p.
+
+  (* to pick THE entry out of the finite log: matching is decidable (equality of numbers, strings, lists of those) *)
+  Hypothesis matches_dec : forall e cl p, {matches e cl p} + {~ matches e cl p}.
+
+  Lemma pick : forall (l : list entry) cl p, (exists e, In e l /\ matches e cl p) -> { e : entry | In e l /\ matches e cl p }.
+  Proof.
+    induction l as [|x r IH]; intros cl p H.
+    - exfalso. destruct H as [e [[] _]].
+    - destruct (matches_dec x cl p) as [M|N].
+      + exists x. split; [now left | exact M].
+      + destruct (IH cl p) as [e [I M]].
+        * destruct H as [e [[->|I] M]]; [contradiction | eauto].
+        * exists e. split; [now right | exact M].
+  Qed.
 
   Definition render_c10 (_ : fs) (a cl : N) (p : RegenBase.path) : N :=
-    cid_of (e_text (proj1_sig (c10_generated a cl p))).
+    cid_of (e_text (proj1_sig (pick (log_of a) cl p (c10_generated a cl p)))).
 
   Theorem render_c10_independent : render_independent render_c10.
   Proof.
     intros s a s' a' cl p. unfold render_c10.
-    destruct (c10_generated a cl p) as [e1 [I1 [M1 K1]]], (c10_generated a' cl p) as [e2 [I2 [M2 K2]]]. cbn [proj1_sig].
+    destruct (pick (log_of a) cl p (c10_generated a cl p)) as [e1 [I1 [M1 K1]]],
+             (pick (log_of a') cl p (c10_generated a' cl p)) as [e2 [I2 [M2 K2]]]. cbn [proj1_sig].
     f_equal. rewrite <- M2 in M1. injection M1 as C T P.
     apply (c10_file_indep a a' e1 e2 I1 I2 C T P). congruence.
   Qed.
